@@ -735,6 +735,26 @@ func checkC15(c *Check) {
 		c.Hold("R6", "AuthorizeEmailUse:not-found-is-no-entitlement", ra.FI.Decl.Pos(), msgNF == "" && nLook > 0, msgNF)
 		c.Hold("R6", "AuthorizeEmailUse:equality-only", ra.FI.Decl.Pos(), !f && entObj != nil && addrObj != nil, "the entitlement lookup can accept without an equality between an entry and the address / its domain / \"*\" (e.g. a suffix or prefix match admits foreign addresses that merely end with an entitled one): "+ra.F.Describe(path))
 	}
+
+	// ---- R8: the check is asked. authorize_sender is usually configured where relaying happens – in a destination
+	// block; its state is then created lazily, at the first recipient of that block, and sees the envelope sender only
+	// through the pipeline's replay of the sender stage. The replay happens before the state is registered, so that a
+	// refusal is repeated for the next recipient (a registered state skips the replay: the second RCPT would be
+	// accepted and the message relayed under the forged sender), and the stage functions record what to replay on
+	// every path. Those are C06's rules R4 / R4d, a clause of this property as well.
+	c.Rule("R8", "the pipeline asks a lazily created check state about the sender before registering it, for every recipient block, and records the sender stage for that replay on every path (C06.R4, C06.R4d)", 2)
+	sub := newCheck("C06", c.P, c.Tier)
+	sub.Rule("R4", "", 0)
+	sub.Rule("R4d", "", 0)
+	c06ReplayOnly(sub)
+	for _, o := range sub.obs {
+		if o.Rule == "R4" || o.Rule == "R4d" {
+			c.Hold("R8", o.Rule+":"+o.Key, o.posRaw, o.OK, o.Msg)
+		}
+	}
+	for f := range sub.funcs {
+		c.SawFunc(f)
+	}
 }
 
 // c15Refusal: the expression is a check result carrying a reason – X.Apply(CheckResult{Reason: non-nil}), a
